@@ -90,3 +90,90 @@ def unsigned_differences(func):
                 # a literal minuend larger than any subtrahend of the narrower type is fine: 65535 - x for uint16 x
                 out.append((line, ty, name, cfront.estr(rhs)))
     return out
+
+
+# --------------------------------------------------------------------------------------------------
+# linear reading of integer conditions: name- and spelling-independent comparison of guards
+def lin(e, defs=None, depth=4):
+    """integer expression -> Poly over variable names and ('load', '<array>[<canonical index>]') atoms; integral casts are
+    transparent; single-assignment locals in defs are replaced by their definitions"""
+    from .poly import Poly
+    if e is None:
+        return None
+    k = e.k
+    if k == "int":
+        return Poly.const(e.val)
+    if k == "var":
+        if defs and e.name in defs and depth > 0:
+            return lin(defs[e.name], defs, depth - 1)
+        return Poly.atom(e.name)
+    if k == "cast":
+        return lin(e.a[0], defs, depth)
+    if k == "bin" and e.op in ("+", "-", "*"):
+        a, b = lin(e.a[0], defs, depth), lin(e.a[1], defs, depth)
+        if a is None or b is None:
+            return None
+        return a + b if e.op == "+" else (a - b if e.op == "-" else a * b)
+    if k == "un" and e.op == "-":
+        a = lin(e.a[0], defs, depth)
+        return None if a is None else -a
+    if k == "idx":
+        base, subs = cfront.subscripts(e)
+        if base is not None:
+            keys = []
+            for s_ in subs:
+                p = lin(s_, defs, depth)
+                keys.append(repr(p) if p is not None else estr(s_))
+            return Poly.atom(("load", "%s[%s]" % (base.name, "][".join(keys))))
+    return Poly.atom(("expr", estr(e)))
+
+
+def rel_lin(e, pol, defs=None):
+    """relational expression with polarity -> ('==' | '!=' | '>' | '>=', Poly) read as  Poly op 0 ; truthiness of x -> x != 0.
+    '==' / '!=' polynomials are sign-normalised."""
+    ops = {"<": ">", "<=": ">=", ">": ">", ">=": ">=", "==": "==", "!=": "!="}
+    neg = {"<": ">=", "<=": ">", ">": "<=", ">=": "<", "==": "!=", "!=": "=="}
+    if e.k == "bin" and e.op in ops:
+        op = e.op if pol else neg[e.op]
+        a, b = lin(e.a[0], defs), lin(e.a[1], defs)
+        if a is None or b is None:
+            return None
+        p = (b - a) if op in ("<", "<=") else (a - b)
+        op2 = ops[op]
+    else:
+        p = lin(e, defs)
+        if p is None:
+            return None
+        op2 = "!=" if pol else "=="
+    if op2 in ("==", "!="):
+        q = -p
+        if repr(q) < repr(p):
+            p = q
+    return (op2, p)
+
+
+def rel_facts(cfg, nid, defs=None):
+    """the guards dominating node nid as a set of (op, Poly-key) facts"""
+    out = set()
+    for e, pol in cfg.guards(nid):
+        r = rel_lin(e, pol, defs)
+        if r is not None:
+            out.add((r[0], r[1].key()))
+    return out
+
+
+def fact(op, p):
+    if op in ("==", "!="):
+        q = -p
+        if repr(q) < repr(p):
+            p = q
+    return (op, p.key())
+
+
+def node_with(cfg, x):
+    """the reachable CFG node whose expression contains the expression object x"""
+    r = cfg.reachable()
+    for n in cfg.nodes:
+        if n.id in r and n.e is not None and any(y is x for y in ewalk(n.e)):
+            return n
+    return None
